@@ -364,6 +364,7 @@ func vC13Stream(cs *vC13Case) ([]vC13Block, map[string]int, cid.Cid, int) {
 	}
 	if len(out) == 0 {
 		nd := merkledag.NewRawNode([]byte("vc13-absent-root"))
+		uni[nd.Cid().KeyString()] = 1 // numbered, although it is not part of the (empty) stream
 		return out, uni, nd.Cid(), 1
 	}
 	ri := cs.Root
